@@ -47,8 +47,11 @@ ANONH = TStruct("__anon_h", (TField("hv", INTS["uint8"]), TField("hw", INTS["uin
 UNH = TStruct("unh_t", (TField(None, ANONH), TField("raw", INTS["uint32"])), union=True)  # anonymous struct (hole when aligned) ties with a regular member
 ANON = TStruct("__anon_a", (TField("ax", INTS["uint8"]), TField("ay", INTS["uint16"])))
 NEST2 = TStruct("nest2_t", (TField("h", INTS["uint8"]), TField("i", IN)))
+BFS = TStruct("bfs_t", (TField("a", INTS["uint8"], 4), TField("b", INTS["uint8"], 4), TField("c", INTS["uint16"])))  # bit-field unit + gap when aligned
+UNS = TStruct("uns_t", (TField("s", IN), TField("w", INTS["uint8"])), union=True)  # the written member is a struct with internal padding
+UNB = TStruct("unb_t", (TField("s", BFS), TField("r", INTS["uint8"])), union=True)  # ... with a bit-field unit
 
-NAMED = {t.name: t for t in (E8, E16s, F32, F16, E24, IN, IN2, ININT, IND, UN, UNH, NEST2)}
+NAMED = {t.name: t for t in (E8, E16s, F32, F16, E24, IN, IN2, ININT, IND, UN, UNH, NEST2, BFS, UNS, UNB)}
 
 
 def _klass(t, bits) -> str:
@@ -110,7 +113,7 @@ def atoms_wide() -> list[Atom]:
         A.append(atom(INTS[n]))
     for n in FLOATS:
         A.append(atom(FLOATS[n]))
-    A += [atom(x) for x in (CHAR, WCHAR, ULEB, ILEB, VOID, E8, E16s, F32, IN, IN2, IND, UN, UNH, NEST2)]
+    A += [atom(x) for x in (CHAR, WCHAR, ULEB, ILEB, VOID, E8, E16s, F32, IN, IN2, IND, UN, UNH, NEST2, UNS, UNB)]
     A.append(atom(ANON, anon=True))
     A += [atom(TPtr(INTS["uint8"])), atom(TPtr(IN)), atom(TPtr(CHAR)), atom(TPtr(TPtr(INTS["uint16"])))]
     for e in ARRAY_ELEMS_WIDE:
